@@ -524,7 +524,13 @@ def run_property(prop, harnesses, tier, meta, extra=None):
 			print(line)
 			printed.add(line)
 	nviol = 0
+	replayed = 0
 	for r, new in violations:
+		if replayed >= 2 and nviol > 0:
+			# one reproduced counterexample decides the check; further failing harnesses are listed without a native replay
+			print(f"ALSO-FAILED property={prop} harness={r.h.name} (not replayed) " + "; ".join(sorted({f['description'] for f in new}))[:300])
+			continue
+		replayed += 1
 		if r.h.replay == "playback":
 			rep, rpath, detail = replay_playback(r.h, prop, r)
 		else:
